@@ -162,6 +162,20 @@ Qed.
 Lemma never_panics cs tag : exists out, preprocess_text class cs tag = Ok out.
 Proof. eexists. apply preprocess_text_spec. Qed.
 
+(* the combining-class sort on its own (it is also the last step for Thai/Lao, Indic and Khmer) *)
+Lemma sort_p_props l :
+  sort_by_modified_combining_class class l = Ok (sort_p class l) /\
+  Permutation l (sort_p class l) /\ length (sort_p class l) = length l /\
+  (forall i z, nth_error l i = Some z -> class z = 0 -> nth_error (sort_p class l) i = Some z) /\
+  map (fun c => class c =? 0) (sort_p class l) = map (fun c => class c =? 0) l /\
+  (forall x r y, l = x ++ r ++ y -> ends_with_base class x -> marks class r -> starts_with_base class y ->
+     sort_p class l = sort_p class x ++ sort_by_key class r ++ sort_p class y).
+Proof.
+  split; [apply sort_ok|]. split; [apply sort_p_perm|]. split; [apply sort_p_length|].
+  split; [intros i z; apply sort_p_base_fixed|]. split; [apply sort_p_mark_positions|].
+  intros x r y -> Hx Hr Hy. apply sort_p_local; assumption.
+Qed.
+
 (* ---- default / Syriac path ---- *)
 Lemma default_spec cs tag : dispatch_action tag = ActSort -> preprocess_text class cs tag = Ok (sort_p class cs).
 Proof. intro H. rewrite preprocess_text_spec. unfold preprocess_spec. rewrite H. reflexivity. Qed.
